@@ -217,117 +217,111 @@ def intCell : Value → Res Int32
   | .int n => .ok n
   | _ => .err .invalidData
 
+/-- names listed in `_Tables` (duplicates and null cells are malformed) -/
+def openNames (pool : Pool) : List (List Cell) → List (List Char) → Res (List (List Char))
+  | [], acc => pure acc
+  | r :: rs, acc => do
+    let n ← strCell ((rowValues pool r).getD 0 .null)
+    if acc.contains n then .err .invalidData else openNames pool rs (n :: acc)
+
+/-- rows of `_Columns`: (table, number, name, type word) -/
+def openColsMap (pool : Pool) (tableNames : List (List Char)) : List (List Cell) →
+    List (List Char × Nat × List Char × Int32) → Res (List (List Char × Nat × List Char × Int32))
+  | [], acc => pure acc
+  | r :: rs, acc => do
+    let vs := rowValues pool r
+    let tn ← strCell (vs.getD 0 .null)
+    if !tableNames.contains tn then .err .invalidData
+    else
+      let idx ← intCell (vs.getD 1 .null)
+      if acc.any (fun e => e.1 == tn && (e.2.1 : Int) == idx.toInt) then .err .invalidData else
+      let cn ← strCell (vs.getD 2 .null)
+      let bits ← intCell (vs.getD 3 .null)
+      openColsMap pool tableNames rs ((tn, idx.toInt.toNat, cn, bits) :: acc)
+
+/-- rows of `_Validation` by (table, column) -/
+def openValMap (pool : Pool) : List (List Cell) → List ((List Char × List Char) × List Value) →
+    Res (List ((List Char × List Char) × List Value))
+  | [], acc => pure acc
+  | r :: rs, acc => do
+    let vs := rowValues pool r
+    let tn ← strCell (vs.getD 0 .null)
+    let cn ← strCell (vs.getD 1 .null)
+    if acc.any (fun e => e.1 == (tn, cn)) then .err .invalidData else openValMap pool rs (((tn, cn), vs) :: acc)
+
+/-- the builder of one column from its `_Validation` row (if any) -/
+def openBuilder (valSpecs : List ((List Char × List Char) × List Value)) (tn cn : List Char) : Column :=
+  let base : Column := { name := cn, coltype := .int16 }
+  match valSpecs.find? (fun e => e.1 == (tn, cn)) with
+  | none => base
+  | some (_, vs) =>
+    let b1 := if vs.getD 2 .null == .str ['Y'] then { base with isNullable := true } else base
+    let b2 := match vs.getD 3 .null, vs.getD 4 .null with
+      | .int lo, .int hi => { b1 with valueRange := some (lo, hi) }
+      | _, _ => b1
+    let b3 := match vs.getD 5 .null, vs.getD 6 .null with
+      | .str kt, .int kc => { b2 with foreignKey := some (kt, kc) }
+      | _, _ => b2
+    let b4 := match vs.getD 7 .null with
+      | .str cat => match Category.fromStr (String.ofList cat) with
+        | some k => { b3 with category := some k }
+        | none => b3
+      | _ => b3
+    match vs.getD 8 .null with
+    | .str en => { b4 with enumValues := Category.splitOn ';' en }
+    | _ => b4
+
+/-- columns 1..n of one table, in order; a missing number is malformed -/
+def openColumns (specs : List (List Char × Nat × List Char × Int32))
+    (valSpecs : List ((List Char × List Char) × List Value)) (tn : List Char) :
+    Nat → Nat → List Column → Res (List Column)
+  | 0, _, acc => pure acc.reverse
+  | fuel+1, i, acc =>
+    match specs.find? (fun e => e.2.1 == i) with
+    | none => .err .invalidData
+    | some (_, _, cn, bits) => do
+      let col ← (openBuilder valSpecs tn cn).withBitfield (ofI32 bits.toInt)
+      openColumns specs valSpecs tn fuel (i + 1) (col :: acc)
+
+def openBuild (colSpecs : List (List Char × Nat × List Char × Int32))
+    (valSpecs : List ((List Char × List Char) × List Value)) (long : Bool) :
+    List (List Char) → List Table → Res (List Table)
+  | [], acc => pure acc
+  | tn :: rest, acc => do
+    let specs := colSpecs.filter (·.1 == tn)
+    if specs.isEmpty then .err .invalidData else
+    let cols ← openColumns specs valSpecs tn specs.length 1 []
+    openBuild colSpecs valSpecs long rest (insertTable acc ⟨tn, cols, long⟩)
+
+def streamOf (cont : List Entry) (n : List Char) : Res Bytes :=
+  match Cont.find cont n with
+  | some e => pure e.data
+  | none => .err .notFound
+
 /-- the parsing work of `Package::open`: (package type, summary, pool, tables) -/
 def openCore (ptype : Option Nat) (cont : List Entry) : Res (Nat × PropSet × Pool × List Table) := do
-  let pt ← match ptype with
-    | some p => pure p
-    | none => .err .invalidData
-  let sumData ← match Cont.find cont sSummary with
-    | some e => pure e.data
-    | none => .err .notFound
+  let pt ← Res.ofOption ptype .invalidData
+  let sumData ← streamOf cont sSummary
   let summary ← Summary.read sumData
-  let poolBytes ← match Cont.find cont sPool with
-    | some e => pure e.data
-    | none => .err .notFound
-  let pool0 ← do
-    let (hdr, r) ← readU32 poolBytes
-    let _ := r
-    let idNat := hdr % Gen.longStringRefsBit
-    match CodePage.fromId (idNat : Int) with
-    | some _ => pure ()
-    | none => .err .invalidData
-  let _ := pool0
+  let poolBytes ← streamOf cont sPool
   -- the pool header and entries are read (and can fail) before the data stream is opened
   let (hdr, r) ← readU32 poolBytes
-  let _ := hdr
+  let _ ← Res.ofOption (CodePage.fromId ((hdr % Gen.longStringRefsBit : Nat) : Int)) .invalidData
   let _ ← Pool.readEntries (r.length + 1) r []
-  let dataBytes ← match Cont.find cont sData with
-    | some e => pure e.data
-    | none => .err .notFound
+  let dataBytes ← streamOf cont sData
   let pool ← Pool.read poolBytes dataBytes
   let long := pool.longRefs
   let s0 : Pkg := ⟨pt, cont, summary, false, pool, [], false⟩
-  -- _Tables
   let tt := Catalog.tablesTable long
   let tRows ← s0.loadRows tt
-  let rec names : List (List Cell) → List (List Char) → Res (List (List Char))
-    | [], acc => pure acc
-    | r :: rs, acc => do
-      let n ← strCell ((rowValues pool r).getD 0 .null)
-      if acc.contains n then .err .invalidData else names rs (n :: acc)
-  let tableNames ← names tRows []
-  -- _Columns
+  let tableNames ← openNames pool tRows []
   let ct := Catalog.columnsTable long
   let cRows ← s0.loadRows ct
-  let rec colsMap : List (List Cell) → List (List Char × Nat × List Char × Int32) →
-      Res (List (List Char × Nat × List Char × Int32))
-    | [], acc => pure acc
-    | r :: rs, acc => do
-      let vs := rowValues pool r
-      let tn ← strCell (vs.getD 0 .null)
-      if !tableNames.contains tn then
-        -- the key and the other cells are only looked at for known tables
-        .err .invalidData
-      else
-        let idx ← intCell (vs.getD 1 .null)
-        if acc.any (fun e => e.1 == tn && (e.2.1 : Int) == idx.toInt) then .err .invalidData else
-        let cn ← strCell (vs.getD 2 .null)
-        let bits ← intCell (vs.getD 3 .null)
-        colsMap rs ((tn, idx.toInt.toNat, cn, bits) :: acc)
-  let colSpecs ← colsMap cRows []
-  -- _Validation
-  let vt := Catalog.validationTable long
-  let vRows ← s0.loadRows vt
-  let rec valMap : List (List Cell) → List ((List Char × List Char) × List Value) →
-      Res (List ((List Char × List Char) × List Value))
-    | [], acc => pure acc
-    | r :: rs, acc => do
-      let vs := rowValues pool r
-      let tn ← strCell (vs.getD 0 .null)
-      let cn ← strCell (vs.getD 1 .null)
-      if acc.any (fun e => e.1 == (tn, cn)) then .err .invalidData else valMap rs (((tn, cn), vs) :: acc)
-  let valSpecs ← valMap vRows []
-  -- tables
-  let rec build : List (List Char) → List Table → Res (List Table)
-    | [], acc => pure acc
-    | tn :: rest, acc => do
-      let specs := colSpecs.filter (·.1 == tn)
-      if specs.isEmpty then .err .invalidData else
-      let n := specs.length
-      -- keys are i32 in the code: negative indices never equal 1..n
-      let rec columns : Nat → Nat → List Column → Res (List Column)
-        | 0, _, acc => pure acc.reverse
-        | fuel+1, i, acc =>
-          match specs.find? (fun e => e.2.1 == i) with
-          | none => .err .invalidData
-          | some (_, _, cn, bits) => do
-            let base : Column := { name := cn, coltype := .int16 }
-            let b ← match valSpecs.find? (fun e => e.1 == (tn, cn)) with
-              | none => pure base
-              | some (_, vs) => do
-                let b1 := if vs.getD 2 .null == .str ['Y'] then { base with isNullable := true } else base
-                let b2 := match vs.getD 3 .null, vs.getD 4 .null with
-                  | .int lo, .int hi => { b1 with valueRange := some (lo, hi) }
-                  | _, _ => b1
-                let b3 := match vs.getD 5 .null, vs.getD 6 .null with
-                  | .str kt, .int kc => { b2 with foreignKey := some (kt, kc) }
-                  | _, _ => b2
-                let b4 := match vs.getD 7 .null with
-                  | .str cat => match Category.fromStr (String.ofList cat) with
-                    | some k => { b3 with category := some k }
-                    | none => b3
-                  | _ => b3
-                let b5 := match vs.getD 8 .null with
-                  | .str en => { b4 with enumValues := Category.splitOn ';' en }
-                  | _ => b4
-                pure b5
-            let col ← b.withBitfield (ofI32 bits.toInt)
-            columns fuel (i + 1) (col :: acc)
-      let cols ← columns n 1 []
-      build rest (insertTable acc ⟨tn, cols, long⟩)
-  let userTables ← build tableNames []
-  let all := insertTable (insertTable userTables tt) ct
-  pure (pt, summary, pool, all)
+  let colSpecs ← openColsMap pool tableNames cRows []
+  let vRows ← s0.loadRows (Catalog.validationTable long)
+  let valSpecs ← openValMap pool vRows []
+  let userTables ← openBuild colSpecs valSpecs long tableNames []
+  pure (pt, summary, pool, insertTable (insertTable userTables tt) ct)
 
 /-- `Package::open` on a container whose root CLSID says `ptype` (`none` = unrecognised):
 the opened package holds the container as it is, nothing pending, no finisher -/
